@@ -2,6 +2,7 @@ package sum
 
 import (
 	"fmt"
+	"go/types"
 
 	"golang.org/x/tools/go/ssa"
 )
@@ -305,4 +306,51 @@ func (f *Frame) ProveIndex(in *ssa.IndexAddr) (bool, string) {
 		return false, "len - index - 1: " + why
 	}
 	return true, fmt.Sprintf("index = %s, len = %s", iv.L.Key(), ln.Key())
+}
+
+// LoopStep describes one accumulator of a recognised loop of the root frame.
+type LoopStep struct {
+	Var   string // source name of the accumulated variable
+	Count Lin    // trip count of the loop
+	Delta Lin    // what one iteration adds
+}
+
+// LoopSteps lists the accumulators (integers and slice lengths) of the loops of the evaluated function
+// whose trip count has the given canonical key (e.g. "1*len(r.RecvDeltas)").
+func (r *FuncResult) LoopSteps(countKey string) []LoopStep {
+	var out []LoopStep
+	f := r.Frame
+	if f == nil {
+		return nil
+	}
+	for _, b := range f.fn.Blocks {
+		li := f.byHead[b]
+		if li == nil {
+			continue
+		}
+		f.shape(li)
+		if !li.ok || li.count.Key() != countKey {
+			continue
+		}
+		for _, in := range b.Instrs {
+			phi, ok := in.(*ssa.Phi)
+			if !ok {
+				break
+			}
+			if phi == li.ind {
+				continue
+			}
+			if _, isInt := intType(phi.Type()); !isInt {
+				if _, isSl := phi.Type().Underlying().(*types.Slice); !isSl {
+					continue
+				}
+			}
+			if _, ok := f.solve(phi); !ok {
+				out = append(out, LoopStep{Var: phi.Comment, Count: li.count, Delta: AtomLin(Op{"unknown", nil})})
+				continue
+			}
+			out = append(out, LoopStep{Var: phi.Comment, Count: li.count, Delta: f.delta[phi]})
+		}
+	}
+	return out
 }
